@@ -1,5 +1,5 @@
 --------------------------- MODULE MC_PartialEval ---------------------------
 EXTENDS PartialEval, Json
 SetSeq(X) == CHOOSE s \in [1..Cardinality(X) -> X] : {s[i] : i \in DOMAIN s} = X
-Emit == PrintT(<<"REPLAY", ToJson([ni |-> NI, ops |-> g.ops, outs |-> g.outs, S |-> SetSeq(g.S)])>>)
+Emit == PrintT(<<"REPLAY", ToJson([ni |-> NI, ops |-> [i \in DOMAIN g.ops |-> [ins |-> g.ops[i].ins, caps |-> SetSeq(g.ops[i].caps), nondet |-> g.ops[i].nondet]], outs |-> g.outs, S |-> SetSeq(g.S)])>>)
 =============================================================================
